@@ -102,7 +102,24 @@ E1_ADD = {
     "zz_verif_e1_model_test.go": "sim/e1/e1_model_test.go",
 }
 
+E2_ADD = {
+    "internal/ircserver/zz_verif_probe.go": "sim/e1/probe_ircserver.go",
+    "zz_verif_e1_node_test.go": "sim/e1/e1_node_test.go",
+    "zz_verif_e2_cluster_test.go": "sim/e2/e2_cluster_test.go",
+}
+
 ENGINES = {
+    "e2": {
+        "pkg": ".",
+        "virtual": ["core"],
+        "add": E2_ADD,
+        "modfile": "robustinternal",
+        "gomaxprocs": 1,
+        "fixed_gomaxprocs": True,
+        "chunk": {"quick": 25, "thorough": 100},
+        "crash_classifier": "crash_fsm",
+        "kind": "E2 clustersim: 1 or 3 nodes with real FSM, stores, hashicorp/raft, rafthttp transport and api.HTTP handlers in one synctest bubble; simulated wire and protocol-following clients",
+    },
     "e1": {
         "pkg": ".",
         "virtual": ["core"],
@@ -211,6 +228,23 @@ CHECKS = {
 }
 
 CHECKS.update({
+    "C05": {
+        "engine": "e2",
+        "runs": {"quick": 2000, "thorough": 200000},
+        "level": "exploration",
+        "rule": ("scenario = 1 or 3 nodes, 2-4 protocol-following clients (one outstanding POST, same ClientMessageId on every retry, next node after a failure, long-poll with lastseen), 3-10 unique-token messages each to a common channel, "
+                 "15-50s of virtual time with 0-5 faults: node kill+restart, kill of the leader, kill of all nodes, partition+heal, loss window, slow node, forced snapshot; TrailingLogs knob (default/0/3) so that InstallSnapshot is reached; "
+                 "non-trivial = >=3 acknowledged posts, >=1 kill or partition and >=1 POST that failed or was acknowledged only after a retry; distinct = event-trace digest (fault events as they took effect)"),
+        "probes": ["kills", "leader_kills", "kill_all", "restarts", "partitions", "loss_windows", "forced_snapshots", "fsm_restores", "posts_acked_after_retry", "post_failures", "streams_compared", "acked_tokens_checked"],
+        "components": {"real": ["statemachine.go/compaction.go", "internal/api (DispatchPublic/Private, all handlers used)", "internal/ircserver", "internal/outputstream", "internal/raftstore + goleveldb", "hashicorp/raft v1.7.3 (elections, replication, snapshots, InstallSnapshot)", "robustirc/rafthttp transport", "httputil.ReverseProxy leader proxying"],
+                       "stubbed": ["main() wiring (re-created with the same raft configuration values, stores, expiry loop)", "TLS/TCP: requests are handed to the target node's handlers in-process over a simulated wire", "the bridge (simulated clients follow its retry protocol)", "process kill = raft shutdown + stores closed at an arbitrary virtual instant (storage-operation granularity is covered by C09/C02 engines)"]},
+        "claim": ("End-to-end on real raft: after the last fault (everything restarted, network healed) all nodes reach a common applied index within 60 virtual seconds, every node serves the identical stream for every session, "
+                  "every acknowledged message appears exactly once in every other member's stream in the sender's posting order, unacknowledged ones at most once, and no client receives a message twice over its resumed connections."),
+        "note": "replay exactness is measured, not guaranteed: goroutine scheduling inside raft is outside the seam (GOMAXPROCS=1, asyncpreemptoff, seeded math/rand and crypto/rand); oracles are schedule-independent.",
+        "technique": "deterministic simulation: whole cluster in one process under a virtual clock, simulated transport with seeded faults, history oracle (exactly-once, order, replica agreement, bounded liveness after faults stop)",
+        "assumptions": ["virtual clock = testing/synctest bubble"],
+        "worker_timeout": {"quick": 600, "thorough": 3600},
+    },
     "C04": {
         "engine": "e3/c04",
         "runs": {"quick": 6000, "thorough": 600000},
@@ -284,7 +318,65 @@ CHECKS.update({
     },
 })
 
+# cluster-engine halves of properties that also have a state-machine half in E1 (run by the same check, see bin/check)
+E2_EXTRA = {
+    "C10": {"runs": {"quick": 400, "thorough": 40000}},
+    "C11": {"runs": {"quick": 400, "thorough": 40000}},
+    "C15": {"runs": {"quick": 400, "thorough": 40000}},
+    "C16": {"runs": {"quick": 400, "thorough": 40000}},
+    "C17": {"runs": {"quick": 400, "thorough": 40000}},
+}
+
 NOT_APPLICABLE = {
     "C18": ("pure function of its input (encode/decode round trips): no schedule, clock, fault or second party for a simulator to own; "
             "deterministic simulation with fault injection does not apply (DESIGN.md §5). Readers/codecs are exercised as a by-product of C02/C09 runs only."),
+}
+
+
+def _add_e2_part(prop, quick, thorough, rule_add, claim_add, probes_add):
+    c = CHECKS[prop]
+    c["parts"] = [
+        {"engine": c["engine"], "runs": c["runs"], "worker_timeout": c.get("worker_timeout", {})},
+        {"engine": "e2", "runs": {"quick": quick, "thorough": thorough}, "worker_timeout": {"quick": 600, "thorough": 3600}},
+    ]
+    c["rule"] += " || cluster part (E2): " + rule_add
+    c["claim"] += " Cluster part (E2, real raft + real HTTP handlers): " + claim_add
+    c["probes"] = c["probes"] + probes_add
+    c["components"] = {"real": c["components"]["real"] + ["E2: internal/api handlers, hashicorp/raft, rafthttp, leader proxying"],
+                       "stubbed": c["components"]["stubbed"] + ["E2: main() wiring, TLS/TCP (simulated wire), bridge (simulated clients)"]}
+    c["note"] = c["note"].replace("The handler half (no second log entry for a retried POST) is decided by the cluster engine once registered.", "").replace("The revision check of the HTTP handler (accept only the revision in force, +1 per accepted update) is decided by the cluster engine once registered.", "")
+
+
+_add_e2_part("C10", 600, 60000,
+    "C05's cluster scenarios plus a retrier: after an acknowledged POST (PRIVMSG or PING) the client repeats it 1-3 times with the same client message id on the same or another node once that node has applied the original; non-trivial = >=2 repeated posts",
+    "every repeated POST is answered 200; the leader's raft log holds at most one entry per (session, client message id); a repeated PRIVMSG is delivered once, a repeated PING answered once - also across kills, restarts, fail-over and forced snapshots.",
+    ["duplicate_posts_sent", "duplicate_posts_to_other_node", "retried_ids_checked", "retried_pings_checked"])
+_add_e2_part("C15", 400, 40000,
+    "cluster scenarios in which clients POST hostile bodies (CR, NUL, 600-byte and multi-byte text, CTCP) through the real POST handler; non-trivial = >=3 hostile posts and >=10 delivered lines checked",
+    "every line any client can fetch from any node (GET messages JSON) is one well-formed IRC line; this half decides that the real POST handler sanitises what E1 assumes it does.",
+    ["hostile_posts"])
+_add_e2_part("C16", 400, 40000,
+    "cluster scenarios plus an administrator who, one request after another, reads GET /config from any node and POSTs a configuration to any node: valid with the revision in force, stale, future, unparsable, without revision header; non-trivial = >=1 accepted update and >=1 cross-node comparison",
+    "only parsable updates naming the revision in force are accepted; an accepted update raises the revision by exactly one; after convergence GET /config (body and revision header) is identical on all nodes.",
+    ["config_posts_valid", "config_posts_stale", "config_posts_future", "config_posts_invalid-toml", "configs_compared", "configs_accepted"])
+_add_e2_part("C17", 400, 40000,
+    "cluster scenarios (sessions never end in them): every client request carries the right secret, readers connect to followers that may not have applied the session yet (slow-node and partition faults widen the lag); non-trivial = >=2 GetMessages connections on a 3-node network",
+    "no node ever answers 404 ('session gone') for a live session; lagging nodes answer 500/proxy instead.",
+    ["lagging_node_said_not_yet_seen", "slow_nodes"])
+
+CHECKS["C11"] = {
+    "engine": "e2",
+    "runs": {"quick": 600, "thorough": 60000},
+    "level": "exploration",
+    "rule": ("cluster scenarios (C05's) plus an attacker who, at seeded moments of the live history, issues POST message / GET messages / DELETE session for a victim session with credential variants "
+             "(none, empty, wrong, another live session's secret, a prefix of the right secret, the right secret plus trailing bytes, upper-cased) on any node, and private routes (status pages, irclog, config, kill, join, part, raft transport, unknown paths) "
+             "with no / wrong / empty password or wrong user, singly and in bursts of 14 rapid attempts; non-trivial = >=3 session-route attacks; distinct = event-trace digest"),
+    "probes": ["attacks_post", "attacks_get", "attacks_delete", "attacks_private", "attacks_private_in_burst"],
+    "components": CHECKS["C05"]["components"],
+    "claim": ("Every request without exactly the victim's secret is refused (status >= 400), reveals no message, and has no effect: its text never reaches any stream on any node and the victim session still exists at the end; "
+              "every private route answers 401 without the network password, also under rapid repeated failures; legitimate clients with the right secret keep working throughout (C05 oracle in the same runs)."),
+    "note": "route list is fixed in the harness (taken from DispatchPrivateWithoutAuth/DispatchPublic at the time of writing); a route added later is not probed until listed. Credential matrix is enumeration; the simulator contributes session states, lag and fail-over.",
+    "technique": "deterministic simulation: attacker actor inside the simulated cluster, refusal + no-effect oracle over the recorded history",
+    "assumptions": ["virtual clock = testing/synctest bubble"],
+    "worker_timeout": {"quick": 600, "thorough": 3600},
 }
